@@ -4058,10 +4058,10 @@ void SoPlexBase<R>::_untransformEquality(SolRational& sol)
          assert(_basisStatusRows[row] != SPxSolverBase<R>::BASIC
                 || _basisStatusCols[col] != SPxSolverBase<R>::BASIC);
 
+         // (no solution values here: after a solve that was stopped early there is a basis but the dual vectors are empty)
          SPxOut::debug(this,
-                       "slack column {} for row {}: col status={}, row status={}, redcost={}, dual={}\n",
-                       col, row, _basisStatusCols[col], _basisStatusRows[row],
-                       sol._redCost[col].str(), sol._dual[row].str());
+                       "slack column {} for row {}: col status={}, row status={}\n",
+                       col, row, _basisStatusCols[col], _basisStatusRows[row]);
 
          if(_basisStatusRows[row] != SPxSolverBase<R>::BASIC)
          {
